@@ -132,6 +132,9 @@ def compare_cases(ctx, timeutils, records, label):
     return m, truth
 
 
+MARSHALLED = ['day', 'month', 'year', 'hour', 'minute', 'second', 'microsecond']
+
+
 def run(ctx):
     from oslo_utils import fixture as fixture_mod
     from oslo_utils import timeutils
@@ -253,6 +256,9 @@ def run(ctx):
     ctx.cov['evaluations'] += m3
     ctx.stage('drawn-comparisons', cases=len(res3.records), calls=m3, true_cases=truth3)
     # 3. marshalling, named zones (delegated calendar arithmetic)
+    from vf import purity
+    _rec = purity.Recorder(timeutils, ['unmarshall_time', 'normalize_time', 'parse_isotime'], every=1)
+    _rec.__enter__()
     rnd = random.Random(ctx.seed)
     k = 0
     zones = ['UTC', 'Europe/Paris', 'America/New_York', 'Asia/Kolkata', 'Pacific/Chatham']
@@ -292,6 +298,12 @@ def run(ctx):
                 problems.append('unmarshall_time changed its argument')
             if first != again or (first.tzinfo is None) != (again.tzinfo is None):
                 problems.append('second unmarshall_time of one dict differs')
+        for src, keys in ((dt, MARSHALLED), (u, MARSHALLED + ['tzname'])):
+            shape = timeutils.marshall_now(src)
+            if type(shape) is not dict or sorted(shape) != sorted(keys) or (src is dt and any(type(v) is not int for v in shape.values())):
+                # which keys the form has is not in the statement (the round trip is); peers unpack it with datetime(**form)
+                ctx.beyond('TimeArith', {'kind': 'marshalled-form-shape', 'aware': src is u}, {'datetime': str(src), 'observed': repr(shape)},
+                           'marshall_now(%s) gives %r; the module gives exactly the keys %s' % (src, shape, sorted(keys)))
         d = timeutils.marshall_now(dt)
         d['second'] = 60
         if timeutils.unmarshall_time(d) != dt.replace(second=59):
@@ -300,6 +312,20 @@ def run(ctx):
         if timeutils.unmarshall_time(timeutils.marshall_now()) != dt:
             problems.append('marshall_now() under override')
         timeutils.clear_time_override()
+        # a form that names a zone by its key (as a peer in another zone would send it): the wall clock in that zone.
+        # Beyond the statement (naive and UTC), kept as an observation; it also gives the order / thread replay of
+        # unmarshall_time forms under several zone names
+        for zn in zones[1:]:
+            form = timeutils.marshall_now(dt)
+            form['tzname'] = zn
+            try:
+                bk = timeutils.unmarshall_time(form)
+                okz = bk.replace(tzinfo=None) == dt and str(bk.tzinfo) == zn
+            except Exception as e:      # noqa
+                bk, okz = 'EXC:' + type(e).__name__, False
+            if not okz:
+                ctx.beyond('TimeArith', {'kind': 'unmarshall-named-zone', 'zone': zn}, {'form': repr(form), 'observed': str(bk)},
+                           'unmarshall_time of a form naming the zone %s gives %s' % (zn, bk))
         z = zoneinfo.ZoneInfo(rnd.choice(zones))
         za = dt.replace(tzinfo=z)
         if timeutils.normalize_time(za) != za.astimezone(datetime.timezone.utc).replace(tzinfo=None):
@@ -357,6 +383,8 @@ def run(ctx):
                           '%s fails for %s (%s)' % (p, dt, z))
     ctx.cov['evaluations'] += k
     ctx.stage('marshalling-and-zones', cases=k)
+    _rec.__exit__()
+    _rec.replay(ctx, 'c12')
     # 4. code -> spec traces through TimeFixture
     batch = []
     lattice = [r['f'] for r in res.records if r['f'] != NONE][:200] or [[1, 0, 0]]
